@@ -252,12 +252,19 @@ Proof.
 Qed.
 
 (* ------------------------------------------------------------------ the invariant *)
-Record Inv (s : state) : Prop := mkInv {
+(* [a0] is the active value the model was constructed with (WithInitialActiveMode; the default is
+   the blank mode): until an activating call succeeds the active value is still that one. *)
+Record InvG (a0 : emode) (s : state) : Prop := mkInv {
   inv_nodup : NoDup (keys (modes s));                                  (* ids are keys *)
   inv_normal : normal_count (modes s) <= 1;                            (* 1. at most one normal mode *)
   inv_active : changed s = true -> has (mid (active s)) (modes s) = true;   (* 3. *)
-  inv_blank : changed s = false -> active s = blank
+  inv_blank : changed s = false -> active s = a0
 }.
+Arguments inv_nodup {a0} s _.
+Arguments inv_normal {a0} s _.
+Arguments inv_active {a0} s _.
+Arguments inv_blank {a0} s _.
+Notation Inv := (InvG blank).
 
 Definition wf_initial (initial : list emode) : Prop :=
   NoDup (keys initial) /\ normal_count initial <= 1.
@@ -267,19 +274,19 @@ Proof.
   intros initial [ND N]. constructor; cbn; try assumption; [discriminate|reflexivity].
 Qed.
 
-Lemma inv_set_modes : forall s l, Inv s -> NoDup (keys l) -> normal_count l <= 1 ->
-  (forall id, has id (modes s) = true -> has id l = true) -> Inv (set_modes s l).
+Lemma inv_set_modes {a0} : forall s l, InvG a0 s -> NoDup (keys l) -> normal_count l <= 1 ->
+  (forall id, has id (modes s) = true -> has id l = true) -> InvG a0 (set_modes s l).
 Proof.
   intros s l I ND N Hmono. destruct I as [I1 I2 I3 I4]. constructor; cbn; try assumption.
   intros C. apply Hmono. apply I3. exact C.
 Qed.
 
-Lemma inv_set_active : forall s m, Inv s -> has (mid m) (modes s) = true -> Inv (set_active s m).
+Lemma inv_set_active {a0} : forall s m, InvG a0 s -> has (mid m) (modes s) = true -> InvG a0 (set_active s m).
 Proof.
   intros s m [I1 I2 I3 I4] H. constructor; cbn; try assumption; [intros _; exact H|discriminate].
 Qed.
 
-Lemma inv_do_add : forall s m created, Inv s -> Inv (fst (do_add s m created)).
+Lemma inv_do_add {a0} : forall s m created, InvG a0 s -> InvG a0 (fst (do_add s m created)).
 Proof.
   intros s m created I. unfold do_add.
   destruct (mnormal m && has_normal (modes s)) eqn:C1; [exact I|].
@@ -303,7 +310,7 @@ Proof.
   - left. apply normal_of_none. exact E.
 Qed.
 
-Lemma inv_do_update : forall s m mask, Inv s -> Inv (fst (do_update true s m mask)).
+Lemma inv_do_update {a0} : forall s m mask, InvG a0 s -> InvG a0 (fst (do_update true s m mask)).
 Proof.
   intros s m mask I. unfold do_update.
   destruct (true && mnormal m && writes_normal mask && other_normal (mid m) (modes s)) eqn:C1; [exact I|].
@@ -330,7 +337,7 @@ Proof.
   - intros id H. rewrite has_replace. exact H.
 Qed.
 
-Lemma inv_do_delete : forall fixD s id allow, Inv s -> Inv (fst (do_delete fixD s id allow)).
+Lemma inv_do_delete {a0} : forall fixD s id allow, InvG a0 s -> InvG a0 (fst (do_delete fixD s id allow)).
 Proof.
   intros fixD s id allow I. unfold do_delete.
   destruct (String.eqb_spec id (mid (active s))) as [E|E]; [exact I|].
@@ -343,13 +350,13 @@ Proof.
   - destruct (allow && fixD); exact I.
 Qed.
 
-Lemma inv_do_set_active : forall s m, Inv s -> Inv (fst (do_set_active s m)).
+Lemma inv_do_set_active {a0} : forall s m, InvG a0 s -> InvG a0 (fst (do_set_active s m)).
 Proof.
   intros s m I. unfold do_set_active. destruct (find (mid m) (modes s)) eqn:F; [|exact I].
   cbn [fst]. apply inv_set_active; [exact I|]. eapply find_some_has. exact F.
 Qed.
 
-Lemma inv_do_change : forall s now id, Inv s -> Inv (fst (do_change s now id)).
+Lemma inv_do_change {a0} : forall s now id, InvG a0 s -> InvG a0 (fst (do_change s now id)).
 Proof.
   intros s now id I. unfold do_change. destruct (find id (modes s)) as [m|] eqn:F; [|exact I].
   cbn [fst]. destruct (find_some _ _ _ F) as [Eid _].
@@ -359,13 +366,13 @@ Proof.
   rewrite E. eapply find_some_has. exact F.
 Qed.
 
-Lemma inv_do_clear : forall s now, Inv s -> Inv (fst (do_clear s now)).
+Lemma inv_do_clear {a0} : forall s now, InvG a0 s -> InvG a0 (fst (do_clear s now)).
 Proof.
   intros s now I. unfold do_clear. destruct (normal_of (modes s)); [apply inv_do_change; exact I|exact I].
 Qed.
 
 (* every operation preserves the invariant (with the repaired updateMode; either deleteMode) *)
-Lemma inv_step_gen : forall fixD s now o, Inv s -> Inv (fst (step_gen true fixD s now o)).
+Lemma inv_step_gen {a0} : forall fixD s now o, InvG a0 s -> InvG a0 (fst (step_gen true fixD s now o)).
 Proof.
   intros fixD s now o I. destruct o; cbn [step_gen].
   - destruct (negb (is_empty (mid m))); [exact I|apply inv_do_add; exact I].
@@ -382,19 +389,29 @@ Proof.
   - apply inv_do_clear; exact I.
 Qed.
 
-Lemma inv_step : forall s now o, Inv s -> Inv (fst (step s now o)).
+Lemma inv_step {a0} : forall s now o, InvG a0 s -> InvG a0 (fst (step s now o)).
 Proof. intros. apply inv_step_gen. assumption. Qed.
 
-Lemma inv_run : forall ops s, Inv s -> Inv (run s ops).
+Lemma inv_run {a0} : forall ops s, InvG a0 s -> InvG a0 (run s ops).
 Proof.
   unfold run, run_gen. induction ops as [|o r IH]; intros s I; cbn; [exact I|].
   apply IH. apply inv_step. exact I.
 Qed.
 
 (* ------------------------------------------------------------------ theorems over all sequences *)
+(* from ANY state satisfying the invariant (whatever the active value the model was constructed with) *)
+Theorem at_most_one_normal_from {a0} : forall s0 ops, InvG a0 s0 ->
+  normal_count (modes (run s0 ops)) <= 1.
+Proof. intros s0 ops I. apply (@inv_normal a0). apply inv_run. exact I. Qed.
+
+Theorem active_exists_once_changed_from {a0} : forall s0 ops, InvG a0 s0 ->
+  let s := run s0 ops in
+  changed s = true -> has (mid (active s)) (modes s) = true.
+Proof. intros s0 ops I s. apply (@inv_active a0). apply inv_run. exact I. Qed.
+
 Theorem at_most_one_normal : forall initial ops, wf_initial initial ->
   normal_count (modes (run (init_state initial) ops)) <= 1.
-Proof. intros initial ops W. apply inv_normal. apply inv_run. apply inv_init. exact W. Qed.
+Proof. intros initial ops W. apply (@at_most_one_normal_from blank). apply inv_init. exact W. Qed.
 
 Theorem at_most_one_normal_members : forall initial ops, wf_initial initial ->
   forall a b, let l := modes (run (init_state initial) ops) in
@@ -408,7 +425,7 @@ Qed.
 Theorem active_exists_once_changed : forall initial ops, wf_initial initial ->
   let s := run (init_state initial) ops in
   changed s = true -> has (mid (active s)) (modes s) = true.
-Proof. intros initial ops W s. apply inv_active. apply inv_run. apply inv_init. exact W. Qed.
+Proof. intros initial ops W s. apply (@inv_active blank). apply inv_run. apply inv_init. exact W. Qed.
 
 (* [changed] is exactly "some activating call has succeeded" *)
 Lemma step_changed : forall fixU fixD s now o,
@@ -496,7 +513,7 @@ Proof.
 Qed.
 
 (* 4. clearing selects the normal mode *)
-Theorem clear_selects_normal : forall s now, Inv s ->
+Theorem clear_selects_normal {a0} : forall s now, InvG a0 s ->
   match normal_of (modes s) with
   | Some n =>
       In n (modes s) /\ mnormal n = true /\
@@ -587,24 +604,30 @@ Proof.
 Qed.
 
 (* 6. deleting an absent mode: NotFound unless allow-missing, then success; nothing changes *)
-Theorem delete_absent : forall s now id allow, Inv s ->
-  id <> EmptyString -> has id (modes s) = false ->
+Theorem delete_absent_gen {a0} : forall s now id allow, InvG a0 s ->
+  id <> EmptyString -> id <> mid a0 -> has id (modes s) = false ->
   step s now (ODelete id allow) = (s, if allow then ok_ None else err_ cNotFound) /\
   step s now (SDelete id allow) = (s, if allow then ok_ None else err_ cNotFound).
 Proof.
-  intros s now id allow I Hne Habs.
+  intros s now id allow I Hne Hne0 Habs.
   assert (Hact : String.eqb id (mid (active s)) = false).
   { apply String.eqb_neq. intros C. destruct (changed s) eqn:Ch.
     - pose proof (inv_active _ I Ch) as H. rewrite <- C, Habs in H. discriminate.
-    - pose proof (inv_blank _ I Ch) as H. rewrite H in C. cbn in C. contradiction. }
+    - pose proof (inv_blank _ I Ch) as H. rewrite H in C. contradiction. }
   assert (Hemp : is_empty id = false) by (apply String.eqb_neq; exact Hne).
   unfold step. cbn [step_gen]. rewrite Hemp. unfold do_delete. rewrite Hact.
   unfold has in Habs. destruct (find id (modes s)); [discriminate|].
   destruct allow; split; reflexivity.
 Qed.
 
+Theorem delete_absent : forall s now id allow, Inv s ->
+  id <> EmptyString -> has id (modes s) = false ->
+  step s now (ODelete id allow) = (s, if allow then ok_ None else err_ cNotFound) /\
+  step s now (SDelete id allow) = (s, if allow then ok_ None else err_ cNotFound).
+Proof. intros s now id allow I Hne. apply (delete_absent_gen s now id allow I Hne). exact Hne. Qed.
+
 (* deleting a stored mode that is not active removes exactly it *)
-Theorem delete_present : forall s now id allow, Inv s ->
+Theorem delete_present {a0} : forall s now id allow, InvG a0 s ->
   has id (modes s) = true -> id <> mid (active s) ->
   let s' := fst (step s now (ODelete id allow)) in
   snd (step s now (ODelete id allow)) = ok_ None /\ has id (modes s') = false /\
